@@ -425,6 +425,18 @@ class World:
     def method(self, mid):
         return getattr(self.mod, mid)
 
+    def _mid_of_line(self):
+        m = getattr(self, "_line_mid", None)
+        if m is None:
+            acc = {}
+            for mid in sorted(self.spec.get("methods", {})):
+                fn = getattr(self.mod, mid, None)
+                co = getattr(fn, "__code__", None)
+                if co is not None:
+                    acc.setdefault(co.co_firstlineno, []).append(mid)
+            m = self._line_mid = {ln: "|".join(mids) for ln, mids in acc.items()}
+        return m
+
     def register(self, fname, mid, priority=None):
         m = self.spec["methods"][mid]
         prio = m.get("prio", 0) if priority is None else priority
@@ -485,7 +497,11 @@ class World:
                 return ["ok", self.log.take(), jsonable(r)]
             elif kind == "resolve":
                 r = ov.resolve(*args)
-                return ["ok", self.log.take(), handler_token(r)]
+                tok = handler_token(r)
+                if tok[2]:
+                    # the method's identity, not where its source happens to sit in this rendering
+                    tok[2] = self._mid_of_line().get(tok[2], tok[2])
+                return ["ok", self.log.take(), tok]
             elif kind == "next":
                 # f.next from a non-method frame
                 r = ov.next(*args)
